@@ -132,10 +132,12 @@ pub open spec fn mulWinv_seq(y0: Seq<F>, x: Seq<F>, alpha: F, beta: F, w: Seq<F>
 //@end
 
 // ------------------------------------------------------------------ the cone object
-//@fn file=src/solver/core/cones/socone.rs in="impl<T> SecondOrderConeSparseData<T>" name=new as=sparse_new rules=R1 ret=r
+impl SecondOrderConeSparseData<F> {
+//@fn file=src/solver/core/cones/socone.rs in="impl<T> SecondOrderConeSparseData<T>" name=new rules=R1 ret=r
 //@contract
     ensures r.u@.len() == dim, r.v@.len() == dim, all_eq(r.u@, f_zero()), all_eq(r.v@, f_zero()), r.d == f_one(),
 //@end
+}
 
 // the packed upper triangle, column by column: entry (row, col), row <= col, sits at col (col + 1) / 2 + row
 pub open spec fn tri(k: int) -> int decreases k { if k <= 0 { 0 } else { tri(k - 1) + k } }
@@ -264,6 +266,41 @@ impl SecondOrderCone<F> {
 //@contract
     requires old(x)@.len() >= 1, y@.len() == old(x)@.len(), z@.len() == old(x)@.len(),
     ensures *final(self) == *old(self), final(x)@ == inv_circ_seq(y@, z@),
+//@end
+}
+
+// the combined-step shift, as assembled by _combined_ds_shift_symmetric:  dz <- W dz, ds <- W^{-1} ds, shift = ds o dz - sigma mu e
+pub open spec fn shift_seq(dz1: Seq<F>, ds1: Seq<F>, sigmamu: F) -> Seq<F> {
+    circ_seq(ds1, dz1).update(0, f_add(circ_seq(ds1, dz1)[0], f_neg(sigmamu)))
+}
+impl SecondOrderCone<F> {
+// the blanket implementation `impl<T, C: SymmetricCone<T> + Cone<T>> SymmetricConeUtils<T> for C`, real text, at C = SecondOrderCone<T>
+//@fn file=src/solver/core/cones/symmetric_common.rs in="SymmetricConeUtils<T> for C" name=_combined_ds_shift_symmetric rules=R1,R2
+//@contract
+    requires old(self).w@.len() >= 1, old(shift)@.len() == old(self).w@.len(), old(step_z)@.len() == old(self).w@.len(), old(step_s)@.len() == old(self).w@.len(),
+    ensures *final(self) == *old(self),
+        final(step_z)@ == mulW_seq(old(step_z)@, old(step_z)@, f_one(), f_zero(), old(self).w@, old(self).eta),
+        final(step_s)@ == mulWinv_seq(old(step_s)@, old(step_s)@, f_one(), f_zero(), old(self).w@, old(self).eta),
+        final(shift)@ == shift_seq(final(step_z)@, final(step_s)@, sigmamu),
+//@end
+//@fn file=src/solver/core/cones/socone.rs in="Cone<T> for SecondOrderCone<T>" name=combined_ds_shift rules=R1,R2
+//@contract
+    // the three work vectors are slices of length numel() of the same cone (call site: CompositeCone::combined_ds_shift)
+    requires old(self).w@.len() >= 1, old(shift)@.len() == old(self).w@.len(), old(step_z)@.len() == old(self).w@.len(), old(step_s)@.len() == old(self).w@.len(),
+    ensures *final(self) == *old(self),
+        final(step_z)@ == mulW_seq(old(step_z)@, old(step_z)@, f_one(), f_zero(), old(self).w@, old(self).eta),
+        final(step_s)@ == mulWinv_seq(old(step_s)@, old(step_s)@, f_one(), f_zero(), old(self).w@, old(self).eta),
+        final(shift)@ == shift_seq(final(step_z)@, final(step_s)@, sigmamu),
+//@end
+//@fn file=src/solver/core/cones/socone.rs in="Cone<T> for SecondOrderCone<T>" name=Δs_from_Δz_offset rules=R1,R2,zipidx:1=mii
+//@contract
+    requires old(out)@.len() >= 1, ds@.len() == old(out)@.len(), z@.len() == old(out)@.len(),
+        old(self).w@.len() == old(out)@.len(), old(self).lambda@.len() == old(out)@.len(),
+    ensures *final(self) == *old(self), final(_work)@ == old(_work)@,
+        final(out)@ == ds_offset_seq(z@, ds@, old(self).lambda@, old(self).w@, old(self).eta),
+//@closure 1
+F
+(q_r: F) ensures q_r == f_neg(zi)
 //@end
 }
 
